@@ -51,7 +51,10 @@ pub fn shape_module(feat: &[String]) -> Vec<u8> {
     let has = |f: &str| feat.iter().any(|x| x == f);
     let mut w = String::from("(module $shape\n");
     if has("rec") {
+        // three explicit recursion groups (2, 1 and 2 members), the last one referring back into the first
         w += "  (rec (type $a (struct (field (ref null $b)))) (type $b (struct (field (ref null $a)))))\n";
+        w += "  (rec (type $c (array (mut i64))))\n";
+        w += "  (rec (type $d (struct (field (ref null $e)) (field (ref null $a)))) (type $e (func (param (ref null $d)))))\n";
     }
     w += "  (type $t0 (func))\n  (type $t1 (func (param i32 f64) (result i64)))\n";
     if has("dup_types") {
